@@ -602,7 +602,9 @@ async fn run_case_inner(c: &Case, tier: &str, verbose: bool, envs: &Arc<EnvState
                 let r = AssertUnwindSafe(ingester.write(batch)).catch_unwind().await;
                 out.stats.writes += 1;
                 let asked: Vec<String> = spy.log_snapshot()[before..].iter().filter(|e| e.method == "get_split_state").map(|e| e.arg.clone()).collect();
-                if asked.is_empty() || asked.iter().any(|a| *a != head) {
+                // self-check of the harness's shard-id computation; an ingester that does not ask (because it remembers
+                // an earlier answer) is not a machinery matter: what it then does with the rows is judged below
+                if asked.iter().any(|a| *a != head) {
                     out.machinery.push(format!("step {step}: the ingester asked for the split state of {asked:?}, the harness computed {head}"));
                     return;
                 }
